@@ -6,9 +6,11 @@ here = os.path.dirname(os.path.abspath(__file__))
 root = os.path.dirname(here)
 import glob
 claims = {}
+ready = set(open(os.path.join(root, "checks", "READY")).read().split())
 for f in sorted(glob.glob(os.path.join(root, "checks", "*.json"))):
     c = json.load(open(f))
-    if "claim" in c:
+    # only checks the coordinator has accepted (listed in checks/READY) are claimed
+    if "claim" in c and os.path.basename(f)[:-5] in ready:
         claims[os.path.basename(f)[:-5]] = c["claim"]
 props = [json.loads(l) for l in open(os.path.join(root, "properties.jsonl"))]
 checks, na = [], []
